@@ -136,6 +136,7 @@ Proof.
   destruct (synced_inv _ _ SY) as (Ss & Sc & Sh & Sa & Si & Sp & Scc & _).
   destruct (compliant13_inv _ _ C) as [Coff Csh Ctail Ccookie Csel Cgi Cgw Chrr Calpn Ccc Cskx Ccr].
   pose proof (S13b Coff) as B.
+  assert (B' : match cv_shares v with [] => true | _ :: _ => false end = false) by exact B.
   unfold keys_ok in SK. apply andb_true_iff in SK as [K0 K1]. rewrite B in K0. cbn [orb] in K0.
   apply negb_true_iff in K0. rewrite K0. cbv beta iota. apply N.eqb_neq in K0.
   set (g := h_share (f_sh fl)) in *.
@@ -169,7 +170,7 @@ Proof.
       { unfold group_impl in Cgi. fold g in B1. rewrite <- B1. rewrite <- B1 in NH. rewrite NH, orb_false_r in Cgi. exact Cgi. }
       assert (ENZ : (cv_ecdhe v' =? 0) = false).
       { rewrite P7. apply N.eqb_neq. apply eff_nonzero; auto. fold g in B1. rewrite B1. exact NH. }
-      rewrite ENZ, P3, B. cbn [orb].
+      rewrite ENZ, P3, B'. cbn [orb].
       unfold process_hrr. rewrite W. cbn [andb negb]. rewrite Chs. change (0 =? 0) with true. cbn [negb].
       rewrite P2, Sc, B3, P3, Sh, B2, CL. cbn [negb].
       replace (0 <? cv_psk v') with false by (rewrite P6; symmetry; apply N.ltb_ge; exact NP).
@@ -178,14 +179,14 @@ Proof.
       fold g. replace (g =? 0) with false by (symmetry; apply N.eqb_neq; exact Gnz).
       rewrite B1. unfold memN at 1. simpl existsb. rewrite N.eqb_refl. cbn [orb negb].
       rewrite (h_f_psk _ _ (compliant_hello13_inv _ _ Csh)).
-      unfold establish_keys. fold g in B1. rewrite <- B1 in NH. rewrite NH. fold g. rewrite <- B1, N.eqb_refl.
+      unfold establish_keys. rewrite NH, N.eqb_refl.
       rewrite Ccr. cbn [negb]. rewrite ALPN. cbn [negb]. rewrite CC.
       eexists. split; [reflexivity|]. simpl. auto.
     + (* cookie only *)
       bs W B1. bs W B2. apply N.eqb_eq in W. fold g in B1.
       destruct (KEY ltac:(rewrite Sh; exact B1)) as [EK ENZ0].
       assert (ENZ : (cv_ecdhe v' =? 0) = false) by (rewrite P7; apply N.eqb_neq; exact ENZ0).
-      rewrite ENZ, P3, B. cbn [orb].
+      rewrite ENZ, P3, B'. cbn [orb].
       unfold process_hrr. rewrite W, B2. change (0 =? 0) with true. cbn [andb negb]. rewrite Chs. change (0 =? 0) with true. cbn [negb].
       replace (0 <? cv_psk v') with false by (rewrite P6; symmetry; apply N.ltb_ge; exact NP).
       rewrite (check_hello13_ok v' w (Some (h_suite h)) (f_sh fl)); [|rewrite P5; exact Si|rewrite P1; exact Ss|exact Csh|intros p Hp; inversion Hp; subst; auto].
@@ -199,12 +200,91 @@ Proof.
     fold g in Chrr.
     destruct (KEY ltac:(rewrite Sh; exact Chrr)) as [EK ENZ0].
     assert (ENZ : (cv_ecdhe v' =? 0) = false) by (rewrite P7; apply N.eqb_neq; exact ENZ0).
-    rewrite ENZ, P3, B. cbn [orb].
+    rewrite ENZ, P3, B'. cbn [orb].
     rewrite (check_hello13_ok v' w None (f_sh fl)); [|rewrite P5; exact Si|rewrite P1; exact Ss|exact Csh|discriminate].
     unfold process_sh13. rewrite Ccookie, Csel. change (0 =? 0) with true. cbn [negb].
     fold g. replace (g =? 0) with false by (symmetry; apply N.eqb_neq; exact Gnz).
-    rewrite P3, Sh, Chrr. cbn [negb].
+    try rewrite P3. rewrite Sh, Chrr. cbn [negb].
     rewrite (h_f_psk _ _ (compliant_hello13_inv _ _ Csh)).
     rewrite P7, P8, EK, Ccr. cbn [negb]. rewrite ALPN. cbn [negb]. rewrite CC.
     eexists. split; [reflexivity|]. simpl. auto.
+Qed.
+
+(* ---- TLS <= 1.2 ---- *)
+Lemma run12_complete e v w vers fl c :
+  synced v w = true -> e_fix_curve12 e = true \/ e_fix_curve12 e = false ->
+  memN (h_suite (f_sh fl)) (w_suites w) = true -> memN (h_suite (f_sh fl)) (e_impl12 e) = true -> h_comp (f_sh fl) = 0 ->
+  is_nil (h_alpn (f_sh fl)) || memB (h_alpn (f_sh fl)) (w_alpn w) = true ->
+  (if memN (h_suite (f_sh fl)) (e_ecdhe12 e)
+   then match f_skx fl with Some c => classical_impl c && memN c (w_groups w) | None => false end
+   else is_none (f_skx fl)) = true ->
+  f_crypto_ok fl = true ->
+  exists st, run12 e (set_ecdhe v c) vers (f_sh fl) fl = Complete st /\ cs_vers st = vers /\ cs_suite st = h_suite (f_sh fl)
+             /\ cs_alpn st = h_alpn (f_sh fl).
+Proof.
+  intros SY _ Hs Hi Hc Ha Hk Hcr.
+  destruct (synced_inv _ _ SY) as (Ss & Sc & Sh & Sa & Si & Sp & Scc & _).
+  unfold run12. change (cv_suites (set_ecdhe v c)) with (cv_suites v). change (cv_alpn (set_ecdhe v c)) with (cv_alpn v).
+  rewrite Ss, Hs, Hi, Hc. change (0 =? 0) with true. cbn [andb negb].
+  rewrite Sa, (check_alpn_ok _ _ Ha). cbn [negb].
+  assert (SK : process_skx e (set_ecdhe v c) (h_suite (f_sh fl)) (f_skx fl) = None).
+  { unfold process_skx. destruct (memN (h_suite (f_sh fl)) (e_ecdhe12 e)).
+    - destruct (f_skx fl) as [cu|]; [|discriminate]. apply andb_true_iff in Hk as [K1 K2]. rewrite K1. cbn [negb].
+      change (cv_curves (set_ecdhe v c)) with (cv_curves v). rewrite Sc, K2. cbn [negb]. rewrite andb_false_r. reflexivity.
+    - destruct (f_skx fl); [discriminate|reflexivity]. }
+  rewrite SK, Hcr. cbn [negb]. eexists. split; [reflexivity|]. simpl. auto.
+Qed.
+
+(* ---- the conditional: a spec satisfying c10_cond completes on every compliant flight ---- *)
+Theorem c10_holds_if fixed e v ks m w fl :
+  c10_cond fixed e v ks m w fl = true -> compliant e m w fl = true ->
+  exists st, client_run10 fixed e v ks fl = Complete st
+             /\ cs_suite st = h_suite (f_sh fl)
+             /\ ((cs_vers st = V13 /\ cs_group st = h_share (f_sh fl) /\ cs_alpn st = f_ee_alpn fl)
+                 \/ (cs_vers st = h_vers (f_sh fl) /\ cs_vers st <> V13 /\ cs_alpn st = h_alpn (f_sh fl))).
+Proof.
+  unfold c10_cond. intros H C. bs H NH. bs H NP. apply negb_true_iff in NH, NP.
+  destruct (spec_ok_inv _ _ _ _ _ _ H) as [SY SV SK SM SE SCX S13a S13b].
+  unfold client_run10, client_run_gen. set (c := if sh_ecdhe ks =? 0 then 0 else _).
+  unfold compliant in C.
+  destruct (h_sv (match f_hrr fl with Some h => h | None => f_sh fl end) =? 0) eqn:SV0.
+  - (* TLS <= 1.2 *)
+    unfold compliant12 in C.
+    bs C Ccr. bs C Cskx. bs C Calpn. bs C Ccomp. bs C Cimpl. bs C Csuite. bs C Ctail. bs C Cadv. bs C Clt. bs C Csv0.
+    destruct (f_hrr fl); [discriminate|]. clear C.
+    apply N.eqb_eq in Csv0. apply N.eqb_eq in Ccomp. apply N.ltb_lt in Clt.
+    destruct (versions_ok_in _ _ _ _ _ SV Cadv) as [V1 V2].
+    unfold pick_version. rewrite Csv0. change (0 =? 0) with true. cbv beta iota.
+    change (client_versions (set_ecdhe v c)) with (client_versions v). rewrite V1.
+    change (version_offered e (set_ecdhe v c) (h_vers (f_sh fl))) with (version_offered e v (h_vers (f_sh fl))). rewrite V2. cbn [negb].
+    assert (CAN : canary_abort e (set_ecdhe v c) (h_vers (f_sh fl)) (f_sh fl) = false).
+    { unfold canary_abort. change (offered_max e (set_ecdhe v c)) with (offered_max e v).
+      unfold versions_ok in SV. apply andb_true_iff in SV as [_ OM].
+      apply orb_true_iff in Ctail as [T|T]; [apply orb_true_iff in T as [T|T]|].
+      - apply N.eqb_eq in T. rewrite T. change (0 =? 1) with false. change (0 =? 2) with false. cbn [orb]. rewrite !andb_false_r. reflexivity.
+      - bs T T3. bs T T2. apply N.eqb_eq in T. apply N.eqb_eq in T2. apply negb_true_iff in T3.
+        rewrite T, T2. change (1 =? 2) with false. rewrite !andb_false_r, orb_false_r.
+        destruct (N.eqb_spec (offered_max e v) V13) as [E|_]; [rewrite E in OM; congruence|reflexivity].
+      - bs T T4. bs T T3. bs T T2. apply negb_true_iff in T3, T4.
+        destruct (N.eqb_spec (offered_max e v) V13) as [E|_]; [rewrite E in OM; congruence|].
+        destruct (N.eqb_spec (offered_max e v) V12) as [E|_]; [rewrite E in OM; congruence|]. reflexivity. }
+    rewrite CAN.
+    replace (h_vers (f_sh fl) =? V13) with false by (symmetry; apply N.eqb_neq; unfold V13 in *; lia).
+    destruct (run12_complete e v w (h_vers (f_sh fl)) fl c SY (or_comm _ _ |> fun x => x) Csuite Cimpl Ccomp Calpn Cskx Ccr) as (st & R & A1 & A2 & A3).
+    exists st. split; [exact R|]. split; [exact A2|]. right. split; [exact A1|]. split; [rewrite A1; unfold V13 in *; lia|exact A3].
+  - (* TLS 1.3 *)
+    destruct (compliant13_inv _ _ C) as [Coff Csh Ctail Ccookie Csel Cgi Cgw Chrr Calpn Ccc Cskx Ccr].
+    assert (F1 : h_sv (match f_hrr fl with Some h => h | None => f_sh fl end) = V13 /\ h_tail (match f_hrr fl with Some h => h | None => f_sh fl end) = 0).
+    { destruct (f_hrr fl) as [h|].
+      - bs Chrr X1. bs Chrr X2. bs Chrr X3. bs Chrr X4. split; [exact (h_f_sv _ _ (compliant_hello13_inv _ _ Chrr))|apply N.eqb_eq; exact X4].
+      - split; [exact (h_f_sv _ _ (compliant_hello13_inv _ _ Csh))|exact Ctail]. }
+    destruct F1 as [F1 F2].
+    destruct (versions_ok_in _ _ _ _ _ SV (offers13_adv m w Coff)) as [V1 V2].
+    unfold pick_version. rewrite F1. change (V13 =? 0) with false. cbv beta iota.
+    change (client_versions (set_ecdhe v c)) with (client_versions v). rewrite V1.
+    change (version_offered e (set_ecdhe v c) V13) with (version_offered e v V13). rewrite V2. cbn [negb].
+    unfold canary_abort. change (V13 <=? V12) with false. change (V13 <=? V11) with false. rewrite !andb_false_r. cbn [orb].
+    change (V13 =? V13) with true. cbv beta iota.
+    destruct (run13_complete fixed v ks m w fl e H NP NH C) as (st & R & A1 & A2 & A3 & A4).
+    exists st. split; [exact R|]. split; [exact A2|]. left. auto.
 Qed.
